@@ -899,7 +899,7 @@ func RunC18Aad(ctx *core.Ctx) {
 			defer func() { <-sem }()
 			r := ctx.Rand("c18/aad/" + e.Name)
 			for k := 0; k < ncases; k++ {
-				c, err, perr := c18NewFile(r, e, c18Paths[r.Intn(4)])
+				c, err, perr := c18NewFile(r, e, c18Paths[r.Intn(len(c18Paths))]) // every writer path, Reset and BeginRowGroup included
 				if err != nil || perr != nil {
 					ctx.Hist("aad_outcome", "write-error") // reported by the roundtrip sub-check
 					continue
